@@ -3,6 +3,7 @@ import math
 import re
 import numpy as np
 from hypothesis import strategies as st
+from vlib import strategies as S
 
 from vlib.runner import Outcome, cut, CutError, close, maxrel
 from vlib import synth
@@ -25,6 +26,8 @@ ASSUMPTIONS = [
 ]
 REQUIRED = {'class:valid': 0.3, 'class:invalid': 0.1, 'class:boundary': 0.03, 'type:twolayer': 0.1,
             'type:power': 0.1, 'mode:ktables': 0.07, 'fill>=3': 0.1}
+# coverage-guided extra (thorough tier): pure-Python taurex modules on this property's path, instrumented by atheris
+FUZZ = {'include': ['taurex.data.profiles.chemistry', 'taurex.util.util'], 'runs': 20000, 'workers': 4}
 
 AMU = 1.66053906892e-27
 FILL = ['H2', 'He', 'N2', 'Ar', 'CO2']
@@ -46,7 +49,7 @@ def _gas(draw, mol):
     elif t == 'twopoint':
         g['surface'], g['top'] = draw(lm), draw(lm)
     elif t == 'array':
-        k = draw(st.integers(1, 6))
+        k = draw(S.ints(1, 6))
         g['values'] = draw(st.lists(lm, min_size=k, max_size=k))
     else:
         g['surface'] = draw(lm)
@@ -60,11 +63,11 @@ def _gas(draw, mol):
 def _case(draw):
     cls = draw(st.sampled_from(['valid', 'invalid', 'valid', 'boundary', 'valid']))
     nl = draw(st.sampled_from([2, 3, 5, 7, 10, 11, 13, 17, 23, 30, 37, 41, 53, 60, 4, 6, 9]))
-    nfill = draw(st.integers(1, 4))
-    fill = draw(st.permutations(FILL))[:nfill]
+    nfill = draw(S.ints(1, 4))
+    fill = draw(S.perm(FILL))[:nfill]
     ratios = draw(st.lists(st.floats(1e-3, 2.0), min_size=nfill - 1, max_size=nfill - 1))
-    ntr = draw(st.integers(0, 5))
-    mols = draw(st.permutations(TRACE))[:ntr]
+    ntr = draw(S.ints(0, 5))
+    mols = draw(S.perm(TRACE))[:ntr]
     traces = [draw(_gas(m)) for m in mols]
     ktab = draw(st.sampled_from([False, True, False]))
     have = draw(st.lists(st.booleans(), min_size=nfill + ntr, max_size=nfill + ntr))
